@@ -134,6 +134,13 @@ pub fn apply_content_fault(orig: &[u8], cf: &ContentFault) -> Vec<u8> {
             v
         }
         ContentFault::Replace(new) => new.clone(),
+        ContentFault::Confusable(i) => {
+            let mut v = orig.to_vec();
+            if let Some(rep) = orig.get(*i).and_then(|c| crate::case::confusable_of(*c)) {
+                v.splice(*i..*i + 1, rep.bytes());
+            }
+            v
+        }
     }
 }
 
